@@ -7,6 +7,26 @@ ALL = ["C%02d" % i for i in range(1, 21)]
 
 # property id -> (level category, level text, level note, technique, design ref)
 CHECKS = {
+ "C01": ("exploration",
+         "Differential execution of the indexed engine against a linear scan of independently parsed rule objects: generated pools that mix all three index paths, hash-colliding 5-byte windows and $domain values, wildcard domains, duplicates and inert lines, each inserted in several permutations / splits / list ids, queried with requests aimed at the rules and at the index edge cases (shortcut at the very end, 0..5-byte URLs, repeated windows, > 4 KiB); plus the three bundled real lists against real requests. Hook counters prove that bucket hits that Match then rejects were reached.",
+         "NetworkRule.Match defines 'individually matches' (its correctness is C03/C04/C05); results compared as sets of rule texts; pools and requests are sampled.",
+         "runtime differential oracle (linear scan of the storage) with hook-event coverage counters",
+         "DESIGN.md section 4, C01"),
+ "C02": ("exploration",
+         "Differential execution of DNSEngine.MatchRequest against a reference resolution that scans every rule with a fresh request: NetworkRules set, nil-ness/class/candidate membership of the basic rule, host rules only without a basic rule and split by family, matched flag; lists mix DNS-level and browser-only rules, hosts lines and bare domains over FastHash-colliding host names; plus the 58 k-line hosts file and the SDN filter with real and perturbed names.",
+         "Match / host names define 'matches'; the applicability classification follows the statement with content-type and match-case as declared don't-care; sampled.",
+         "runtime differential oracle (reference resolution over all rules) with hook-event coverage counters",
+         "DESIGN.md section 4, C02"),
+ "C12": ("exploration",
+         "Crash harvesting plus a metamorphic oracle: grammar-rendered, real-list and hand-made hostile lines with byte mutations go through every constructor, Match (twice, which reaches the lazily compiled pattern), the priority and selection functions and construction/querying of all four engines inside recover-guards in journalled worker processes (a dead worker is diagnosed from the journal); inserting blank/comment/rejected lines, CRLF line ends and a missing final newline must leave every engine answer unchanged.",
+         "The Go runtime is the memory monitor (panics, fatal errors); termination is bounded progress under a watchdog (inconclusive, not violated, when it fires); inputs are sampled.",
+         "runtime crash monitor (recover + process journal) and metamorphic inertness oracle",
+         "DESIGN.md section 4, C12"),
+ "C13": ("exploration",
+         "History-based execution: long query histories with heavy repetition over DNS, web, MatchAll and cosmetic queries, interleaved with derived computations on OLD results, against String- and File-backed engines; every answer is compared with the answer of a fresh engine over the same bytes and every kept result object is re-snapshotted after every later operation.",
+         "Snapshots cover exported state; histories are sampled; pool reuse is whatever sync.Pool does sequentially.",
+         "runtime history oracle (fresh-engine equivalence + result immutability snapshots)",
+         "DESIGN.md section 4, C13"),
  "C11": ("exploration",
          "Differential execution of both readers: generated list contents (every line-ending style, BOM, NUL, multi-byte characters on the 4 KiB buffer boundary, lines of 4094..10000 bytes, 1..4 lists with extreme int32 ids, IgnoreCosmetic on/off, a twin list with identical offsets) are scanned and compared with a line-by-line reference parse; every yielded index is retrieved cold and warm in random order from a String-backed and a File-backed storage, and engines built on both answer a request sample identically (quick 3000 storages / 2e8 bytes, thorough 1e5).",
          "Reference parse calls rules.NewRule per line as the statement defines; scan completely, then retrieve; contents are sampled from a line pool.",
